@@ -81,6 +81,18 @@ func (r *Result) count(kind, key string, nontrivial bool) {
 	}
 }
 
+// n evaluations on inputs that are distinct by construction (an exhaustive lattice)
+func (r *Result) countBulk(kind string, n int) {
+	if n <= 0 {
+		return
+	}
+	r.mu.Lock()
+	defer r.mu.Unlock()
+	r.Evaluations += n
+	r.Hist[kind] += n
+	r.DistinctNontrivial += n
+}
+
 func (r *Result) sample(s interface{}) {
 	r.mu.Lock()
 	defer r.mu.Unlock()
